@@ -241,6 +241,27 @@ Definition parse_transport (t0 : transport) (ts : bytes) : transport * bool :=
       else (t, true)
   end.
 
+(* the specification of Transport-header validity, independent of the order of the parameters:
+   no transport spec, an unknown spec, "multicast" on RTP/AVP/TCP, or ANY parameter
+   interleaved / client_port / server_port / port whose first number is missing, not a number or
+   negative — whatever precedes or follows it *)
+Definition is_range_key (k : bytes) : bool :=
+  bytes_eqb k k_interleaved || bytes_eqb k k_client_port || bytes_eqb k k_server_port || bytes_eqb k k_port.
+Definition tok_bad (tcp : bool) (tok : bytes) : bool :=
+  if bytes_eqb tok k_multicast && tcp then true
+  else if bytes_eqb tok k_append then false
+  else let '(k, v) := pair_scan tok in is_range_key k && negb (range_begin_ok v).
+Definition transport_invalid (ts : bytes) : bool :=
+  match cut 59 ts with
+  | None => true
+  | Some (spec0, rest) =>
+      let spec := trim_space spec0 in
+      let toks := List.map trim_space (split_on 59 rest) in
+      if bytes_eqb spec k_avp_tcp then existsb (tok_bad true) toks
+      else if bytes_eqb spec k_avp || bytes_eqb spec k_avp_udp then existsb (tok_bad false) toks
+      else true
+  end.
+
 (* ------------------------------------------------------------------ the handlers *)
 Definition resp (code : Z) (q : request) : response :=
   {| rs_code := code; rs_cseq := q_cseq q; rs_sess := true |}.
@@ -526,6 +547,8 @@ Definition mon_step (m : mon) (q : request) (o : obs_step) : option mon :=
              && (negb (o_media o) || m_played m)
           then Some m else None
         else if (c =? 455) && negb (status_eqb (m_phase m) SReady && is_play_or_record me) then None
+        else if (c =? 2) && meth_eqb me MSetup && transport_invalid (q_transport q) then
+          None   (* a SETUP whose Transport header is invalid must be refused, wherever the fault is *)
         else if c =? 2 then
           match mon_accept m me with
           | None => None
